@@ -9,6 +9,7 @@ import (
 	"fmt"
 	"hash/fnv"
 	"math/rand/v2"
+	"os"
 	"regexp"
 	"sort"
 	"strings"
@@ -54,7 +55,7 @@ type mergeRig struct {
 	warmCnt map[string]int
 }
 
-func newMergeRig(dir string, n int, rng *rand.Rand) (*mergeRig, error) {
+func newMergeRig(dir string, n int, rng *rand.Rand, twin bool) (*mergeRig, error) {
 	adaptation.SetPluginRequestTimeout(60 * time.Second)
 	adaptation.SetPluginRegistrationTimeout(60 * time.Second)
 	rt, err := rig.NewRuntime(dir)
@@ -74,7 +75,12 @@ func newMergeRig(dir string, n int, rng *rand.Rand) (*mergeRig, error) {
 			idx = fmt.Sprintf("%02d", perm[pos])
 		}
 		pos := pos
-		p := rig.NewPlugin(fmt.Sprintf("p%d", pos), idx, 0, rig.Handlers{})
+		name := fmt.Sprintf("p%d", pos)
+		if twin && pos < n {
+			// distinct plugin instances registered under one and the same index and name
+			idx, name = "05", "twin"
+		}
+		p := rig.NewPlugin(name, idx, 0, rig.Handlers{})
 		p.H.Any = func(e api.Event, pod *api.PodSandbox, ctr *api.Container) {
 			if pod != nil && strings.HasPrefix(pod.Id, "warmup") {
 				m.warmMu.Lock()
@@ -837,7 +843,7 @@ func runMergeChild(which string, c *ev.ChildEnv, res *ev.Result) {
 	n := plan.sizes[c.Batch%len(plan.sizes)]
 	seed := uint64(c.Seed)
 	rng := rand.New(rand.NewPCG(seed, uint64(1000+c.Batch)))
-	m, err := newMergeRig(c.Dir, n, rng)
+	m, err := newMergeRig(c.Dir, n, rng, false)
 	if err != nil {
 		res.Note("rig failed: %v", err)
 		return
@@ -853,7 +859,7 @@ func runMergeChild(which string, c *ev.ChildEnv, res *ev.Result) {
 			if s.N != n {
 				continue
 			}
-			if which != "C01" && (s.Pattern == "plain" || s.Pattern == "collision-after-ignored-drop") {
+			if which != "C01" && (s.Pattern == "plain" || s.Pattern == "collision-after-ignored-drop" || s.Pattern == "decoy-removal-then-set") {
 				continue // the must-fail half belongs to C01
 			}
 			if which == "C03" && s.Path != "create-adjust" {
@@ -934,6 +940,47 @@ func runMergeChild(which string, c *ev.ChildEnv, res *ev.Result) {
 		res.Count(fmt.Sprintf("cases_with_%d_in_flight", R), int64(hi-lo))
 	}
 	res.Count(fmt.Sprintf("rig_plugins_%d", n), 1)
+	if which == "C01" && n == 2 {
+		m.close()
+		runTwins(c, res, g, rng)
+	}
+}
+
+// runTwins: two distinct plugin instances registered under the same index and name both set the same
+// item. Their relative order is not determined, so only cases that must fail in either order are asserted.
+func runTwins(c *ev.ChildEnv, res *ev.Result, g *mgen, rng *rand.Rand) {
+	dir := c.Dir + "/twin"
+	os.MkdirAll(dir, 0o755)
+	m, err := newMergeRig(dir, 2, rng, true)
+	if err != nil {
+		res.Note("twin rig failed: %v", err)
+		return
+	}
+	defer m.close()
+	i := 0
+	for _, s := range systematicSpecs() {
+		if s.N != 2 || s.Pattern != "plain" {
+			continue
+		}
+		cs := g.genSystematic(fmt.Sprintf("c01-twin-c%d", i), s)
+		i++
+		c.WAL("case %s kind=%s", cs.ID, cs.Kind)
+		obs := m.exec(cs)
+		fwd := append(append([]PResp(nil), cs.Resp...), PResp{})
+		rev := []PResp{cs.Resp[1], cs.Resp[0], {}}
+		e1, e2 := Evaluate(cs.Kind, cs.Ctr, cs.Res, fwd), Evaluate(cs.Kind, cs.Ctr, cs.Res, rev)
+		res.Eval()
+		if e1.Verdict != MustFail || e2.Verdict != MustFail || e1.FailItem == "update-of-created" {
+			res.Count("twin_unasserted", 1)
+			continue
+		}
+		res.Seen("twin|" + cs.Tags[0])
+		res.Count("twin_must_fail_cases", 1)
+		if obs.Err == nil {
+			res.Violate(fmt.Sprintf("C01/missed-conflict/%s/%s/same-name-plugins", itemKind(e1.FailItem), e1.FailPath),
+				fmt.Sprintf("two plugin instances registered as 05-twin both set %s (%s) but the %s request succeeded", e1.FailItem, e1.Why, cs.Kind), cs)
+		}
+	}
 }
 
 // isBoundaryValue: the value does not contain a generator-made unique number (1001 <= n < 10^9), so it
